@@ -30,6 +30,8 @@ fn main() {
         if p.is::<types::InjectedPanic>() || p.is::<world::HarnessPanic>() { return; }
         let msg = if let Some(s) = p.downcast_ref::<&str>() { s.to_string() } else if let Some(s) = p.downcast_ref::<String>() { s.clone() } else { "?".into() };
         if msg == "mismatched root set" { return; }
+        let loc = info.location().map(|l| format!("{}:{}", l.file().rsplit('/').next().unwrap_or(""), l.line())).unwrap_or_default();
+        world::LAST_PANIC.with(|p| *p.borrow_mut() = format!("{msg} at {loc}"));
         eprintln!("PANIC: {msg} at {:?}", info.location());
     }));
     let args: Vec<String> = std::env::args().collect();
